@@ -50,3 +50,41 @@ pub mod logs {
         crate::utils::crc::unmask_checksum(c)
     }
 }
+
+/// Wrappers for `src/tables/filter_block_builder.rs` and `src/tables/filter_block.rs`.
+pub mod filters {
+    use std::sync::Arc;
+
+    use crate::filter_policy::FilterPolicy;
+    use crate::tables::verif_exports::{FilterBlockBuilder, FilterBlockReader};
+
+    pub struct Builder(FilterBlockBuilder);
+
+    impl Builder {
+        pub fn new(policy: Arc<dyn FilterPolicy>) -> Self {
+            Builder(FilterBlockBuilder::new(policy))
+        }
+        pub fn notify_new_data_block(&mut self, offset: usize) {
+            self.0.notify_new_data_block(offset)
+        }
+        pub fn add_key(&mut self, key: Vec<u8>) {
+            self.0.add_key(key)
+        }
+        pub fn finalize(&mut self) -> Vec<u8> {
+            self.0.finalize()
+        }
+    }
+
+    pub struct Reader(FilterBlockReader);
+
+    impl Reader {
+        pub fn new(policy: Arc<dyn FilterPolicy>, data: Vec<u8>) -> Result<Self, String> {
+            FilterBlockReader::new(policy, data)
+                .map(Reader)
+                .map_err(|e| format!("{:?}", e))
+        }
+        pub fn key_may_match(&self, block_offset: u64, key: &[u8]) -> bool {
+            self.0.key_may_match(block_offset, key)
+        }
+    }
+}
